@@ -620,4 +620,10 @@ def main():
 
 
 if __name__ == "__main__":
-    sys.exit(main())
+    # every check holds the repo lock shared; tools/mutate.py takes it exclusively while /repo is patched
+    if os.environ.get("VERIF_HOLDS_REPO_LOCK") == "1":
+        sys.exit(main())
+    os.makedirs(CACHE, exist_ok=True)
+    with open(os.path.join(CACHE, "repo.lock"), "w") as _lk:
+        fcntl.flock(_lk, fcntl.LOCK_SH)
+        sys.exit(main())
